@@ -11,7 +11,7 @@ import (
 	"github.com/pip-services3-gox/pip-services3-expressions-gox/tokenizers/generic"
 )
 
-var tokKinds = []string{"generic", "expression", "csv", "mustache"}
+var tokKinds = []string{"generic", "expression", "csv", "mustache", "generic-custom"}
 
 var optNames = []string{"skipUnknown", "skipWhitespaces", "skipComments", "skipEof", "mergeWhitespaces", "unifyNumbers", "decodeStrings"}
 
@@ -19,6 +19,13 @@ func newTokenizer(kind string) tokenizers.ITokenizer {
 	switch kind {
 	case "generic":
 		return generic.NewGenericTokenizer()
+	case "generic-custom":
+		// the generic tokenizer with user-registered symbols whose proper prefixes are not all symbols
+		t := generic.NewGenericTokenizer()
+		t.SymbolState().Add("=:=", tokenizers.Symbol)
+		t.SymbolState().Add("<!--", tokenizers.Symbol)
+		t.SymbolState().Add("!>>>", tokenizers.Keyword)
+		return t
 	case "expression":
 		return calctok.NewExpressionTokenizer()
 	case "csv":
@@ -91,10 +98,12 @@ func guarded(f func()) (outcome string, detail string) {
 		f()
 		done <- [2]string{"ok", ""}
 	}()
+	tm := time.NewTimer(3 * time.Second)
+	defer tm.Stop()
 	select {
 	case r := <-done:
 		return r[0], r[1]
-	case <-time.After(3 * time.Second):
+	case <-tm.C:
 		hangs++
 		return "hang", "no return within 3s"
 	}
@@ -150,6 +159,7 @@ var tokAlpha = map[string][]rune{
 	"expression": {'a', '1', '.', '-', '/', '*', '\'', '"', '<', '>', '=', '!', 'e', '+', ' ', '\n', 0x416, 0x1F600},
 	"csv":        {'a', ',', '"', '\r', '\n', ';', ' ', 0x416, 0x1F600},
 	"mustache":   {'a', '{', '}', '#', '/', '"', ' ', '\n', '^', 0x416, 0x1F600},
+	"generic-custom": {'a', '=', ':', '<', '!', '-', '>', '1', ' '},
 }
 
 // the most significant subset (push-back paths) for deeper exhaustive enumeration
@@ -158,11 +168,13 @@ var tokAlphaCore = map[string][]rune{
 	"expression": {'1', '.', '-', '/', '*', 'e', '<', '\''},
 	"csv":        {'a', ',', '"', '\r', '\n'},
 	"mustache":   {'a', '{', '}', '#', ' ', '"'},
+	"generic-custom": {'=', ':', '<', '!', '-', '>'},
 }
 
 var tokSnippets = map[string][]string{
 	"generic":    {"a1 <= b-c # rest\nx", "-.5 . - 'q' \"r\" <> >= 12.5.6", "x-1 -x .a a. 1.", "пример 'стр' -", "'unterminated", "a\r\nb\n\rc\rd"},
 	"expression": {"a + b*2 - f(x, 'it''s') /* c */ <= 3.5e-2", "1e 1e+ 1.e5 .5 . - / /* open", "NOT x IS NULL and \"q\"\"r\" != 2 >> 1", "a/b /**/ c/", "x<>y<=z>=w<<1", "'abc\n'\r\n1"},
 	"csv":        {"a,b,c\r\n1,\"x,y\",3\n", "\"a\"\"b\",,\r,\n\r\"", "a;b\rc\n\nd\"", "\"unterminated,\r\n", "поле,\"знач\"\"ение\"\n"},
+	"generic-custom": {"a=:=b=:c=d", "<!-- x --> <!- <! !>>> !>> !>", "=:=:=:<!--!>>>"},
 	"mustache":   {"Hello, {{Name}}!", "{{#if A}}x{{/if}}{{^B}}y{{/B}}", "{{{raw}}} {{! c }} {{ a b }} {", "{{ 'q' \"r\" }}} }} {{", "a{b{{c}d}}e}}}", "{{#a}}\n{{/a}}\r\n"},
 }
